@@ -167,6 +167,9 @@ func (w *world) send(kp *wallet.KeyPair, to types.Address, zts types.ZenonTokenS
 		return nil
 	}
 	w.out.Count("call-accepted:" + w.regime + ":" + cn + "." + mname + ":" + tag)
+	// an accepted user block carries data that ValidateSendBlock's re-encoding leaves unchanged (otherwise the
+	// hash check after the vm run would have failed): what ReceiveBlock's DealWithErr(Unpack) relies on
+	w.out.Oracle(bytes.Equal(tx.Block.Data, data), "accepted-data-canonical", M{"contract": cn, "method": mname, "data": Byt(data)})
 	w.hashes = append(w.hashes, b.Hash)
 	if to == types.SporkContract {
 		// a node exits the process when a spork it does not implement activates (chain/momentum_event); every spork
@@ -534,7 +537,7 @@ func (w *world) randomCall() {
 			if ht == 1 {
 				lock = crypto.HashSHA256(p)
 			}
-			args = []interface{}{w.senders[rng.Intn(len(w.senders))].Address, w.now() + int64(10*(1+rng.Intn(8))), ht, uint8([]int{0, 1, 32, 255}[rng.Intn(4)]), lock}
+			args = []interface{}{w.senders[rng.Intn(len(w.senders))].Address, w.now() + int64(10*(1+rng.Intn(40))), ht, uint8([]int{0, 1, 32, 255}[rng.Intn(4)]), lock}
 		}
 	case definition.CancelStakeMethodName: // "Cancel" on stake
 		if e := w.pickMade("stake.Stake"); c.Addr == types.StakeContract && e != nil && rng.Intn(4) != 0 {
